@@ -53,7 +53,10 @@ pub fn window_ops(data: &[u8]) -> CaseResult {
 	.min(254);
 	let boxed = c.u8() & 1 == 1;
 	let mut ops = Vec::new();
-	while c.left() > 0 && ops.len() < 400 {
+	// (every observation compares the whole window with the model: long op lists on large capacities cost
+	// milliseconds per input and starve the coverage feedback; large capacities are enumerated exhaustively by C01)
+	let max_ops = if cap <= 40 { 400 } else { 80 };
+	while c.left() > 0 && ops.len() < max_ops {
 		ops.push(match c.u8() % 16 {
 			0..=8 => c01::Op::Push,
 			9 | 10 => c01::Op::Observe,
